@@ -151,6 +151,7 @@ def programs(ctx, n):
         # length fields of every width class in front of payloads that are not one byte long: a test that compares the
         # instance it encoded with the decoded one depends on what the encoder stores back into the length member
         progs.extend(FIXED_LENGTH_WIDTHS)
+        progs.append(FIXED_EMPTY_FIRST)
         # package / module names are the user's: a digit next to a letter, a capital inside (fix44, ouchV5) — the codec files
         # and their tests must agree on how such a name is spelled
         for g, j in (("fix44", "com.acme.fix44"), ("ouchV5", "io.ouchV5.codec"), ("sample_bin", "sample_bin.msgs")):
@@ -250,6 +251,41 @@ root packet Frame {
 
 # an inline object whose member is a packet that refers to further packets, reachable from the
 # holder through the inline object ONLY: every type a sample message instantiates must be nameable where the test is emitted
+# the FIRST pair of a table goes to a packet without fields, later ones do not: the sample's key and the sample's payload must
+# come from the same pair
+FIXED_EMPTY_FIRST = """options {
+    StringPrefixLenType = u8;
+    JavaPackage = "com.example.msg";
+    GoPackage = "msg";
+    GoModule = "example.com/msg";
+}
+
+root packet Envelope {
+    u16 MsgType,
+    u16 BodyLen @lengthOf(Body),
+    match MsgType as Body {
+        0 : Heartbeat,
+        1 : Logon,
+        [2, 3] : Logout,
+    },
+    u32 Seq,
+}
+
+packet Heartbeat {
+}
+
+packet Logon {
+    char[8] User,
+    string Password,
+    repeat u32 Caps,
+}
+
+packet Logout {
+    u8 Reason,
+}
+"""
+
+
 FIXED_REFERENCE_CHAIN = """options {
     StringPrefixLenType = u16;
     ArrayPrefixLenType = u16;
